@@ -186,6 +186,21 @@ def game_fields_task(task):
                 bad.append((trial, 'variant'))
         out.append(res(f'C16/HandHistory.from_game_state.create_game/{code}/game-defining-fields-are-preserved/E', not bad, str(bad[:3]),
                        meta={'function': 'pokerkit.notation.HandHistory.from_game_state', 'variant': code}, secs=(time.time() - t0) / 11))
+    # decimal chips whose VALUE is integral: the statement quantifies over "int and decimal chip values" -- they must come back as decimals
+    # (a pot of ints is split with odd chips, a pot of decimals exactly: the replayed stacks differ otherwise)
+    kind_bad = []
+    try:
+        game = pk.NoLimitTexasHoldem(A, True, 0, (Decimal('1'), Decimal('2')), Decimal('2'))
+        state = game([Decimal('100')] * 3, 3)
+        s3 = HandHistory.loads(HandHistory.from_game_state(game, state).dumps()).create_state()
+        for fld in ('blinds_or_straddles', 'starting_stacks'):
+            for x, y in zip(getattr(state, fld), getattr(s3, fld)):
+                if isinstance(x, Decimal) and isinstance(y, int):
+                    kind_bad.append((fld, repr(x), repr(y)))
+    except Exception as e:     # noqa
+        kind_bad.append(('raised', repr(e)))
+    out.append(res('C16/HandHistory.dumps/decimal-amounts-of-integral-value-come-back-as-decimals/E', not kind_bad,
+                   f'Decimal amounts read back as int: {kind_bad[:4]}', meta={'function': 'pokerkit.notation.HandHistory.dumps / loads'}))
     return {'results': out, 'contract': None}
 
 
